@@ -353,7 +353,7 @@ class Base:
             ods = os.path.join(work, "input.ods")
             ods_io.write_input(ods, hists, layout, random.Random(self.case["writer_seed"]), faults={"asset": fault["asset"], "grid_edit": grid_edit_for(fault)})
         elif fault["kind"] == "ini":
-            ini = os.path.join(work, "config.ini")
+            ini = os.path.join(work, "config.json" if fault["class"] == "config-deprecated-json" else "config.ini")
             text = json_config(self.assets, self.exchanges, self.holders) if fault["class"] == "config-deprecated-json" else mutate_ini(self.ini_text, fault)
             with open(ini, "w", encoding="utf-8") as handle:
                 handle.write(text)
